@@ -75,7 +75,7 @@ def run(tier, replay):
         "wire_histories": wire["histories"], "wire_connections": wire["connections"],
         "flavours": FLAVOURS,
         "samples": [{"n": menu[0][0], "kinds": menu[0][1], "flavours": menu[0][2]}, wire["sample"]],
-        "rule": "Pool.tla with task kind panic and Guarded = TRUE (the no-guard variant is refuted by TLC: NoWorkerLost); histories of 3..%d jobs drawn from 12 connection "
+        "rule": "[wire: valid requests incl. bodies, each answer compared with the fresh server's, final sweep 2N x 5; extreme-answer requests] Pool.tla with task kind panic and Guarded = TRUE (the no-guard variant is refuted by TLC: NoWorkerLost); histories of 3..%d jobs drawn from 12 connection "
                 "flavours run by the closure body of Server::run on the real ThreadPool + internally failing jobs, each followed by two probes of N rendezvous tasks; replayed "
                 "schedules and free runs validated by Trace_Pool. Wire: Server.tla / Trace_Server on histories of real connections against the real binary" % (9 if tier == "quick" else 50),
     }
